@@ -1,0 +1,167 @@
+//go:build verif
+
+// Contracts for the cluster and cache-group allocation stages (checked by /verif/govc).
+// This file is comment-only and compiled only with the build tag "verif".
+
+package cpuallocator
+
+// ---- takeIdleClusters ----------------------------------------------------------------------------------------------
+// Hardware well-formedness assumed of the cluster list (T4): no cluster is listed twice, clusters are non-nil and
+// their CPU sets are pairwise disjoint.
+//@ pure clustersOK(t topologyCache) bool =
+//@    (forall i int :: 0 <= i && i < len(t.clusters) ==> t.clusters[i] != nil) &&
+//@    (forall i int, j int :: 0 <= i && i < j && j < len(t.clusters) ==> t.clusters[i] != t.clusters[j] && t.clusters[i].cpus.Intersection(t.clusters[j].cpus).IsEmpty())
+
+// sortCPUClusters has no contract of its own (its `s.pick` is a closure of takeIdleClusters held in an unnamed func-typed
+// field, only resolvable at the call site): it is verified INLINED into takeIdleClusters through the invariant of its
+// collecting loop, a stepping stone after the append and two assertions after slices.SortFunc (modelled by the engine as a
+// permutation of the slice that preserves the absence of duplicates; the comparator is not interpreted).
+// pickedC(m, a, L, hi): the clusters of list L are clusters of the topology with index <= hi, without repetition, and
+// their recorded free CPU sets m[c] are non-empty subsets of the cluster's CPUs and of the candidate set.
+//@ pure pickedC(m map[*cpuCluster]cpuset.CPUSet, a *allocatorHelper, L []*cpuCluster, hi int) bool =
+//@    (forall k int :: 0 <= k && k < len(L) ==> (exists i int :: 0 <= i && i <= hi && L[k] == old(a.topology.clusters[i]))) &&
+//@    (forall k int, l int :: 0 <= k && k < l && l < len(L) ==> L[k] != L[l]) &&
+//@    (forall k int :: 0 <= k && k < len(L) ==> !m[L[k]].IsEmpty() && m[L[k]].IsSubsetOf(L[k].cpus) && m[L[k]].IsSubsetOf(a.from))
+//@ loop 0 in (*allocatorHelper).sortCPUClusters at "range a.topology.clusters"
+//@   modifies cpus[*], pkgCPUCnt[*], dieCPUCnt[*], maps map[idset.ID]int
+//@   invariant 0 <= len($t16) && newobj($t16) && pickedC(cpus, a, $t16, rangeindex)
+//@   invariant forall k idset.ID :: k in dieCPUCnt ==> newobj(dieCPUCnt[k])
+//@   invariant forall m map[idset.ID]int :: old(alive(m)) ==> dom(m) == old(dom(m)) && vals(m) == old(vals(m)) && len(m) == old(len(m))
+// ($t16 is the local `clusters`, $t35 its value after the append; the bare name is ambiguous with the fields
+// a.topology.clusters / s.clusters in the engine's debug-info name resolution)
+// stepping stone: what `clusters = append(clusters, c)` did
+//@ assert[C08] in (*allocatorHelper).sortCPUClusters at "cpus[c] = cset": len($t35) == len($t16) + 1 && $t35[len($t16)] == c && (forall k int :: 0 <= k && k < len($t16) ==> $t35[k] == $t16[k] && $t16[k] != c)
+// after slices.SortFunc (a permutation): the same facts hold for the sorted list, hence the free sets are pairwise disjoint
+//@ assert[C08] in (*allocatorHelper).sortCPUClusters at "s.clusters = clusters": pickedC(cpus, a, $t16, len(a.topology.clusters) - 1)
+//@ assert[C08] in (*allocatorHelper).sortCPUClusters at "s.clusters = clusters": forall k int, l int :: 0 <= k && k < l && l < len($t16) ==> cpus[$t16[k]].Intersection(cpus[$t16[l]]).IsEmpty()
+
+//@ func (*allocatorHelper).takeIdleClusters
+//@   requires wfh(a) && a.sys != nil && topoValid(a)
+//@   modifies a.result, a.from, a.cnt
+//@   ensures[C08] stagePost(a)
+//@ loop 0 in (*allocatorHelper).takeIdleClusters at "range clusters"
+//@   modifies a.result, a.from, a.cnt
+//@   invariant stagePost(a)
+//@   invariant forall j int :: rangeindex < j && j < len(clusters) ==> cpus[clusters[j]].IsSubsetOf(a.from)
+//@   invariant forall i int, j int :: rangeindex < i && i < j && j < len(clusters) ==> cpus[clusters[i]].Intersection(cpus[clusters[j]]).IsEmpty()
+
+// ---- takeCacheGroups -------------------------------------------------------------------------------------------------
+// usable CPU sets of the groups L[lo:] lie inside F / are pairwise disjoint / are disjoint from those of M[lo:]
+//@ pure grpSub(s *cacheGroupSorter, L []*cacheGroup, lo int, F cpuset.CPUSet) bool =
+//@    forall j int :: lo <= j && j < len(L) ==> s.cpus[L[j]].IsSubsetOf(F)
+//@ pure grpDistinct(L []*cacheGroup) bool =
+//@    forall i int, j int :: 0 <= i && i < j && j < len(L) ==> L[i] != L[j]
+//@ pure grpElemDisj(s *cacheGroupSorter, L []*cacheGroup) bool =
+//@    forall i int, j int :: 0 <= i && i < len(L) && 0 <= j && j < len(L) && L[i] != L[j] ==> s.cpus[L[i]].Intersection(s.cpus[L[j]]).IsEmpty()
+//@ pure grpDisj(s *cacheGroupSorter, L []*cacheGroup) bool = grpDistinct(L) && grpElemDisj(s, L)
+//@ pure grpPair(s *cacheGroupSorter, L []*cacheGroup) bool =
+//@    forall i int, j int :: 0 <= i && i < j && j < len(L) ==> s.cpus[L[i]].Intersection(s.cpus[L[j]]).IsEmpty()
+// element-wise versions (x in set): the late loops are discharged by the array-based back ends, which reason better
+// about membership than about set equalities
+//@ pure grpSubP(s *cacheGroupSorter, L []*cacheGroup, lo int, F cpuset.CPUSet) bool =
+//@    forall j int, x int :: lo <= j && j < len(L) && x in s.cpus[L[j]] ==> x in F
+//@ pure grpPairP(s *cacheGroupSorter, L []*cacheGroup) bool =
+//@    forall i int, j int, x int :: 0 <= i && i < j && j < len(L) && x in s.cpus[L[i]] ==> !(x in s.cpus[L[j]])
+//@ pure grpCross(s *cacheGroupSorter, L []*cacheGroup, M []*cacheGroup, lo int) bool =
+//@    forall i int, j int :: 0 <= i && i < len(L) && lo <= j && j < len(M) ==> s.cpus[L[i]].Intersection(s.cpus[M[j]]).IsEmpty()
+//@ pure groupPick(s *cacheGroupSorter, F cpuset.CPUSet) bool =
+//@    grpSub(s, s.prefer, 0, F) && grpSub(s, s.usable, 0, F) && grpDisj(s, s.prefer) && grpDisj(s, s.usable) && grpCross(s, s.prefer, s.usable, 0)
+
+// Hardware well-formedness assumed of the cache-group list (T4): no group is listed twice, groups are non-nil and their
+// CPU sets are pairwise disjoint.
+//@ pure groupsOK(t topologyCache) bool =
+//@    (forall i int :: 0 <= i && i < len(t.cacheGroups) ==> t.cacheGroups[i] != nil) &&
+//@    (forall i int, j int :: 0 <= i && i < j && j < len(t.cacheGroups) ==> t.cacheGroups[i] != t.cacheGroups[j] && t.cacheGroups[i].cpus.Intersection(t.cacheGroups[j].cpus).IsEmpty())
+
+// picked(s, a, L, hi): the groups of list L are groups of the topology with index <= hi, without repetition, and their
+// recorded free CPU sets s.cpus[g] are non-empty subsets of the group's CPUs and of the candidate set.
+//@ pure picked(s *cacheGroupSorter, a *allocatorHelper, L []*cacheGroup, hi int) bool =
+//@    (forall k int :: 0 <= k && k < len(L) ==> (exists i int :: 0 <= i && i <= hi && L[k] == old(a.topology.cacheGroups[i]))) &&
+//@    (forall k int, l int :: 0 <= k && k < l && l < len(L) ==> L[k] != L[l]) &&
+//@    (forall k int :: 0 <= k && k < len(L) ==> !s.cpus[L[k]].IsEmpty() && s.cpus[L[k]].IsSubsetOf(L[k].cpus) && s.cpus[L[k]].IsSubsetOf(a.from))
+//@ pure crossDistinct(L []*cacheGroup, M []*cacheGroup) bool =
+//@    forall k int, l int :: 0 <= k && k < len(L) && 0 <= l && l < len(M) ==> L[k] != M[l]
+// sortCacheGroups is verified INLINED at its only call site (its `s.pick` is a closure of takeCacheGroups, an unnamed
+// func-typed field that only resolves there) and summarised for the rest of takeCacheGroups by the contract below
+// (`summary`: the ensures are proved at the inline exit, the caller continues with modifies havocked + ensures assumed).
+// What takeCacheGroups uses of the sorter: both result lists are allocated, every listed group has a non-empty free CPU
+// set inside the candidate set, and these sets are pairwise disjoint within and across the two lists.
+//@ pure sorterQ(s *cacheGroupSorter, F cpuset.CPUSet) bool =
+//@    alive(base(s.prefer)) && alive(base(s.usable)) && base(s.prefer) != base(s.usable) && groupPick(s, F)
+//@ func (*cacheGroupSorter).sortCacheGroups inline-only inline-size=700 summary
+//@   requires a != nil && s != nil
+//@   modifies s.prefer, s.preferPkg, s.preferDie, s.usable, s.usablePkg, s.usableDie, s.cpus, s.part, s.full
+//@   ensures[C08] alive(base(s.prefer)) && alive(base(s.usable)) && groupPick(s, a.from)
+//@ loop 0 in (*cacheGroupSorter).sortCacheGroups at "range a.topology.cacheGroups"
+//@   modifies s.prefer, s.usable, s.cpus[*], s.preferPkg[*], s.preferDie[*], s.usablePkg[*], s.usableDie[*], maps map[idset.ID]int
+//@   invariant newobj(s.prefer) && newobj(s.usable) && alive(base(s.prefer)) && alive(base(s.usable)) && base(s.prefer) != base(s.usable)
+//@   invariant picked(s, a, s.prefer, rangeindex) && picked(s, a, s.usable, rangeindex)
+//@   invariant crossDistinct(s.prefer, s.usable)
+//@   invariant forall k idset.ID :: (k in s.preferDie ==> newobj(s.preferDie[k])) && (k in s.usableDie ==> newobj(s.usableDie[k]))
+//@   invariant forall m map[idset.ID]int :: old(alive(m)) ==> dom(m) == old(dom(m)) && vals(m) == old(vals(m)) && len(m) == old(len(m))
+// stepping stones: what `s.prefer = append(s.prefer, g)` / `s.usable = append(s.usable, g)` did ($t68 / $t88 are the lists
+// before the append)
+//@ assert[C08] in (*cacheGroupSorter).sortCacheGroups at "s.preferDie[g.pkg]; !ok": len(s.prefer) == len($t68) + 1 && s.prefer[len($t68)] == g && (forall k int :: 0 <= k && k < len($t68) ==> s.prefer[k] == $t68[k] && $t68[k] != g) && (forall l int :: 0 <= l && l < len(s.usable) ==> s.usable[l] != g)
+//@ assert[C08] in (*cacheGroupSorter).sortCacheGroups at "s.usableDie[g.pkg]; !ok": len(s.usable) == len($t88) + 1 && s.usable[len($t88)] == g && (forall k int :: 0 <= k && k < len($t88) ==> s.usable[k] == $t88[k] && $t88[k] != g) && (forall l int :: 0 <= l && l < len(s.prefer) ==> s.prefer[l] != g)
+// after the collecting loop: distinct topology groups have disjoint CPU sets, hence so have their recorded free sets
+//@ assert[C08] in (*cacheGroupSorter).sortCacheGroups at "if log.DebugEnabled() {": sorterQ(s, a.from)
+// after the first slices.SortFunc (a permutation of s.prefer that leaves s.usable alone); the second one is covered by
+// the ensures of the summary
+//@ assert[C08] in (*cacheGroupSorter).sortCacheGroups at "if len(s.usable) > 0 {": sorterQ(s, a.from)
+
+// the uncommitted bookkeeping triple (result, from, cnt) of takeCacheGroups
+//@ pure lp(a *allocatorHelper, result cpuset.CPUSet, from cpuset.CPUSet, cnt int) bool =
+//@    result.Union(from).Equals(old(a.result.Union(a.from))) && result.Intersection(from).IsEmpty() &&
+//@    cnt + result.Size() == old(a.cnt + a.result.Size()) && old(a.result).IsSubsetOf(result)
+
+//@ func (*allocatorHelper).takeCacheGroups
+//@   requires wfh(a) && a.sys != nil && topoValid(a) && 0 <= a.prefer
+//@   modifies a.result, a.from, a.cnt
+//@   ensures[C08] stagePost(a)
+//@ loop 0 in (*allocatorHelper).takeCacheGroups at "range sorter.prefer"
+//@   modifies nothing
+//@   invariant lp(a, result, from, cnt) && cnt >= 0
+//@   invariant grpSub(sorter, sorter.prefer, rangeindex + 1, from) && grpSub(sorter, sorter.usable, 0, from)
+
+// groupsBySize only holds non-empty lists of usable groups; the first group of each list (the only one the exact-size
+// strategy looks at) has its free CPUs inside `from`. totalByIndex holds the prefix sums of the usable group sizes
+// (stated over index pairs j, k == j+1 so that instantiating it never creates a new array index).
+//@ pure gbsOK(s *cacheGroupSorter, m map[int][]*cacheGroup, F cpuset.CPUSet) bool =
+//@    forall k int :: k in m ==> 0 < len(m[k]) && alive(m[k]) && s.cpus[m[k][0]].IsSubsetOf(F)
+//@ pure prefix(s *cacheGroupSorter, t []int) bool =
+//@    len(t) <= len(s.usable) && (0 < len(t) ==> t[0] == s.cpus[s.usable[0]].Size()) &&
+//@    (forall j int, k int :: 0 <= j && k == j + 1 && k < len(t) ==> t[k] == t[j] + s.cpus[s.usable[k]].Size())
+
+// ($t92 is the local `from` after the first loop: the bare name would resolve to its value before that loop)
+//@ loop 1 in (*allocatorHelper).takeCacheGroups at "i <= len(sorter.usable)-1"
+//@   modifies groupsBySize[*]
+//@   invariant 0 <= i && i <= len(sorter.usable) && len(totalByIndex) == i && totalCPUs == (i == 0 ? 0 : totalByIndex[i-1]) && prefix(sorter, totalByIndex)
+//@   invariant groupsBySize != nil && gbsOK(sorter, groupsBySize, $t92)
+//@   invariant grpPairP(sorter, sorter.usable) && grpSub(sorter, sorter.usable, 0, $t92)
+
+// the exact-size strategy takes a group recorded in groupsBySize: its free CPUs are still in `from`
+//@ assert[C08] in (*allocatorHelper).takeCacheGroups at "took remaining %d CPUs": cset.IsSubsetOf($t92)
+// Determinism: the "smallest number of groups of a single size" strategy never triggers. `n < take` compares against
+// take == 0, so the map iteration (the only Go-map range on the allocation path that assigns anything) leaves
+// size == 0 && take == 0 whatever the iteration order, and the block guarded by `take != 0 && size > 1` (loop 3, one
+// `return`) is dead code; its loop therefore carries no invariant.
+//@ loop 2 in (*allocatorHelper).takeCacheGroups at "range groupsBySize {"
+//@   modifies nothing
+//@   invariant[C08] size == 0 && take == 0
+
+//@ loop 4 in (*allocatorHelper).takeCacheGroups at "range totalByIndex"
+//@   modifies nothing
+//@   invariant 0 <= grpCnt && grpCnt == rangeindex + 1 && cpuCnt == (grpCnt == 0 ? 0 : totalByIndex[grpCnt-1])
+
+// taking usable groups in list order: what is still needed plus what the first i groups held never exceeds cpuCnt (the
+// total of the first grpCnt groups, checked to be >= cnt); so when all grpCnt groups were taken nothing remains, otherwise
+// the loop broke at a group that is still untouched, which is the one the final partial allocation splits
+//@ loop 5 in (*allocatorHelper).takeCacheGroups at "i < grpCnt"
+//@   modifies nothing
+//@   invariant lp(a, result, from, cnt) && cnt >= 0 && 0 <= i && i <= grpCnt
+//@   invariant grpSubP(sorter, sorter.usable, i, from) && grpSub(sorter, sorter.usable, i, from)
+//@   invariant i < grpCnt ==> sorter.cpus[sorter.usable[grpCnt-1]].IsSubsetOf(from)
+//@   invariant cnt + (i == 0 ? 0 : totalByIndex[i-1]) <= cpuCnt
+// stepping stones for the cardinality bookkeeping: what is taken lies in `from` and is disjoint from `result`
+//@ assert[C08] in (*allocatorHelper).takeCacheGroups at "took %d./%d remaining CPUs (%s) of usable cache group %s": cset.IsSubsetOf(from) && result.Intersection(cset).IsEmpty()
+//@ assert[C08] in (*allocatorHelper).takeCacheGroups at "grpCnt, grpCnt, use.Size(), use, g)": use.IsSubsetOf(cset) && (use.Size() == cnt || use.IsEmpty())
